@@ -43,7 +43,7 @@ CLAIMS = {
          "7/C15", "contract postconditions with pow10 lemma hints; order lemmas as pure SMT goals"),
  'C16': ("Layer 1: the inline fast paths of the BigInt methods proved against value/sign/representation contracts (zero is never negative) with exact wrap-around semantics; slow paths and the thin wrappers (bitwise, shifts, Div/Mod/DivMod, GCD, ModInverse, Exp, Sqrt ...) against assumed math/big contracts (uninterpreted operation functions, header-aliasing and negative-zero ghosts) and the unsafe-bridge contracts, the latter exercised by a bounded differential check on every run.",
          "7/C16", "contracts over the concrete representation (two machine words + handle) with 64-bit wrap modelled exactly"),
- 'C17': ("Modf functional contract (integ+frac == d, exponent signs, either output nil, outputs may alias the receiver), Int64 with the wrapped cast proved correct, SetInt64/New/SetFinite exact.",
+ 'C17': ("Modf functional contract (integ+frac == d, exponent signs, either output nil, outputs may alias the receiver), Int64 with the wrapped cast proved correct, SetInt64/New/SetFinite exact. Float64 as plumbing: the result is what strconv.ParseFloat returns for the specified scientific string of d, on every path (that this is the nearest float64 is strconv's; floats are not modelled). SetFloat64's shortest-decimal claim is not decided.",
          "7/C17", "contract postconditions incl. loop invariant for the x10 loop"),
  'C18': ("The sequential frame conditions from which data-race freedom follows: Context methods and read-only Decimal methods write only their destination and fresh memory, every store instruction and every callee effect is proved to hit fresh memory or the function's assigns set (so not even a write that is undone before returning touches the Context, an operand or a shared table), no function under contract assigns a package-level variable (every written reference must be `writable`, i.e. outside the global region); schedules are not explored (stated meta-theorem).",
          "7/C18", "frame obligations (class F); schedule quantifier by meta-theorem"),
